@@ -153,3 +153,25 @@ def linear_candidates(rng, m):
          [[(-1) ** i, 2, [i]] for i in range(M)]]             # alternating halves
     c += [[[1, 1, [i]]] for i in range(M)]                    # n_i
     return c
+
+
+def rename(m, mapping):
+    """the same model with site labels renamed (labels occur in sites, preset arguments and term operators)"""
+    def ren(x):
+        return mapping.get(x, x) if isinstance(x, str) else x
+    out = dict(m)
+    out["sites"] = [[ren(l), o, s] for (l, o, s) in m["sites"]]
+    nb = []
+    for act in m["build"]:
+        if act[0] == "Preset":
+            nb.append(["Preset", act[1], [act[2][0]] + [ren(a) for a in act[2][1:]]])
+        elif act[0] == "AddTerm":
+            t = dict(act[2])
+            t["ops"] = [[op[0], ren(op[1]), op[2], op[3]] for op in t["ops"]]
+            nb.append(["AddTerm", act[1], t])
+        elif act[0] == "Factory":
+            nb.append(["Factory", act[1], [act[2][0]] + [ren(a) for a in act[2][1:]], act[3]])
+        else:
+            nb.append(act)
+    out["build"] = nb
+    return out
